@@ -217,6 +217,8 @@ static void UAT(seq_##name)(void)								\
 	int n = sizeof(pats) / sizeof(pats[0]), i;						\
 	T g0 = (T) 0x5a5a5a5a5a5a5a5aUL, g1 = (T) 0xa5a5a5a5a5a5a5a5UL;			\
 	T model, r = 0, rr, a, b;								\
+	int evals = 0;										\
+	const char *detail = "";								\
 	box.guard0 = g0; box.guard1 = g1;							\
 	box.cell = model = (T) pats[rnd(n)];							\
 	for (i = 0; i < 24; i++) {								\
@@ -232,10 +234,15 @@ static void UAT(seq_##name)(void)								\
 			if (r != rr) goto bad; break;						\
 		case 4: r = uatomic_cmpxchg(&box.cell, model, b); rr = model; model = b;	\
 			if (r != rr) goto bad; break;						\
-		case 5: r = uatomic_add_return(&box.cell, a); model = (T) (model + a);		\
-			if (r != model) goto bad; break;					\
-		case 6: r = uatomic_sub_return(&box.cell, a); model = (T) (model - a);		\
-			if (r != model) goto bad; break;					\
+		case 5: model = (T) (model + a); evals = 0;					\
+			/* the value of the expression itself, not a copy converted to T */	\
+			if (uatomic_add_return(&box.cell, (evals++, a)) != model || evals != 1)	\
+				{ r = box.cell; detail = " [the value of the uatomic_add_return() expression itself differs from the reference, or its operand was evaluated more than once]"; goto bad; }	\
+			break;									\
+		case 6: model = (T) (model - a); evals = 0;					\
+			if (uatomic_sub_return(&box.cell, (evals++, a)) != model || evals != 1)	\
+				{ r = box.cell; detail = " [the value of the uatomic_sub_return() expression itself differs from the reference, or its operand was evaluated more than once]"; goto bad; }	\
+			break;									\
 		case 7: uatomic_add(&box.cell, a); model = (T) (model + a); break;		\
 		case 8: uatomic_sub(&box.cell, a); model = (T) (model - a); break;		\
 		case 9: uatomic_inc(&box.cell); model = (T) (model + 1); break;			\
@@ -250,9 +257,9 @@ static void UAT(seq_##name)(void)								\
 	}											\
 	return;											\
 bad:												\
-	usim_fail("uatomic-value", "uatomic (%s, %s) disagrees with the sequential reference after step %d: cell=%lld model=%lld returned=%lld guards %s",	\
+	usim_fail("uatomic-value", "uatomic (%s, %s) disagrees with the sequential reference after step %d: cell=%lld model=%lld returned=%lld guards %s%s",	\
 		IMPL, #name, i, (long long) box.cell, (long long) model, (long long) r,		\
-		(box.guard0 != g0 || box.guard1 != g1) ? "CLOBBERED" : "intact");		\
+		(box.guard0 != g0 || box.guard1 != g1) ? "CLOBBERED" : "intact", detail);	\
 }
 
 CHECK_TYPE(signed char, schar)
@@ -293,10 +300,12 @@ static void UAT(mix_##name##_##vname)(void)							\
 			if (r != rr) goto bad; break;						\
 		case 3: r = uatomic_cmpxchg(&box.cell, model, b); rr = model; model = (T) b;	\
 			if (r != rr) goto bad; break;						\
-		case 4: r = uatomic_add_return(&box.cell, a); model = (T) (model + (T) a);	\
-			if (r != model) goto bad; break;					\
-		case 5: r = uatomic_sub_return(&box.cell, a); model = (T) (model - (T) a);	\
-			if (r != model) goto bad; break;					\
+		case 4: model = (T) (model + (T) a);						\
+			if (uatomic_add_return(&box.cell, a) != model) { r = box.cell; goto bad; }	\
+			break;									\
+		case 5: model = (T) (model - (T) a);						\
+			if (uatomic_sub_return(&box.cell, a) != model) { r = box.cell; goto bad; }	\
+			break;									\
 		case 6: uatomic_add(&box.cell, a); model = (T) (model + (T) a); break;		\
 		case 7: uatomic_sub(&box.cell, a); model = (T) (model - (T) a); break;		\
 		case 8: uatomic_and(&box.cell, a); model = (T) (model & (T) a); break;		\
